@@ -1,5 +1,5 @@
 CONSTANTS
   MaxIn = 4
 SPECIFICATION Spec
-INVARIANT AdvanceFoldsToPosOf
+INVARIANTS AdvanceFoldsToPosOf AddIsRelative
 CHECK_DEADLOCK FALSE
